@@ -843,12 +843,20 @@ caf_read_strings (SF_PRIVATE * psf, sf_count_t chunk_size)
 {	char *buf ;
 	char *key, *value ;
 	uint32_t count, hash ;
+	sf_count_t bytesread ;
 
 	if ((buf = malloc (chunk_size + 1)) == NULL)
 		return (psf->error = SFE_MALLOC_FAILED) ;
 
-	psf_binheader_readf (psf, "E4b", &count, buf, (size_t) chunk_size) ;
+	bytesread = psf_binheader_readf (psf, "E4b", &count, buf, (size_t) chunk_size) ;
 	psf_log_printf (psf, " count: %u\n", count) ;
+
+	/* Only look at the bytes that were really read : the chunk may claim more than the file holds. */
+	bytesread -= 4 ;
+	if (bytesread < 0)
+		bytesread = 0 ;
+	if (bytesread < chunk_size)
+		chunk_size = bytesread ;
 
 	/* Force terminate `buf` to make sure. */
 	buf [chunk_size] = 0 ;
